@@ -15,6 +15,7 @@ import (
 	"runtime/debug"
 	"sort"
 	"strings"
+	"sync"
 	"time"
 
 	"mellium.im/xmlstream"
@@ -56,6 +57,14 @@ type Feat struct {
 	Mask     uint8  `json:"mask"`                    // returned by Negotiate
 	BindLike bool   `json:"bindlike,omitempty"`      // returns Ready when it is the sole pending mandatory feature
 	Fail     bool   `json:"fails,omitempty"`         // Negotiate returns an error
+	// Wrap: a restarting feature that returns a new io.ReadWriter wrapped around
+	// session.Conn() (like stream compression) instead of session.Conn() itself.
+	Wrap bool `json:"wraps_connection,omitempty"`
+	// EarlyReady: a voluntary, non-restarting feature whose mask contains Ready
+	// whenever at most one mandatory feature and no voluntary restarting feature
+	// of the latest list is still un-negotiated (so that the library, which goes
+	// on through the list, can still negotiate that mandatory feature).
+	EarlyReady bool `json:"early_ready,omitempty"`
 }
 
 // AdItem is one child of a features list sent by the peer (initiator cases).
@@ -85,6 +94,17 @@ type Cfg struct {
 	Sels       []Sel      `json:"selections,omitempty"`
 	SkipHeader int        `json:"peer_skips_header_at,omitempty"` // k>0: the peer omits its k-th restart header
 	Reps       int        `json:"repetitions"`
+	Tee        bool       `json:"tee,omitempty"` // StreamConfig.TeeIn/TeeOut are set
+}
+
+// Group is a whole case: 1-4 sessions that share ONE xmpp.Negotiator value, one
+// []xmpp.StreamFeature slice and the StreamFeature values in it (same Feats,
+// framing, tee and role), run one after the other or overlapping in time on
+// different goroutines.  Every session is judged by the same per-session oracle.
+type Group struct {
+	Sessions []*Cfg `json:"sessions"`
+	Overlap  bool   `json:"overlapping,omitempty"`
+	Reps     int    `json:"repetitions"`
 }
 
 func elig(f *Feat, st uint8) bool { return st&f.Nec == f.Nec && st&f.Proh == 0 }
@@ -121,17 +141,8 @@ func genMask(r *rand.Rand) uint8 {
 	return bSecure | bAuthn
 }
 
-func gen(r *rand.Rand, index int) *Cfg {
-	c := &Cfg{Reps: 1}
-	if index%2 == 0 {
-		c.Role = "initiator"
-		c.Reps = 4
-	} else {
-		c.Role = "receiver"
-	}
-	c.WS = r.Intn(4) == 0
-	c.S2S = r.Intn(3) == 0
-	c.Init = []uint8{0, 0, bSecure, bSecure | bAuthn}[r.Intn(4)]
+func genFeats(r *rand.Rand, receiver bool) []Feat {
+	var feats []Feat
 	n := 2 + r.Intn(5)
 	tls := -1
 	if r.Intn(4) == 0 {
@@ -151,6 +162,7 @@ func gen(r *rand.Rand, index int) *Cfg {
 		}
 		f.Req = r.Intn(5) < 2
 		f.Restart = r.Intn(3) == 0
+		f.Wrap = f.Restart && r.Intn(3) == 0
 		f.Info = r.Intn(8) == 0
 		f.Mask = genMask(r)
 		if r.Intn(2) == 0 && f.Proh != 0 {
@@ -159,7 +171,7 @@ func gen(r *rand.Rand, index int) *Cfg {
 		if i == tls {
 			// mostly shaped like the real thing, sometimes arbitrary
 			if r.Intn(3) != 0 {
-				f.Nec, f.Proh, f.Mask, f.Restart, f.Req = 0, bSecure, bSecure, true, true
+				f.Nec, f.Proh, f.Mask, f.Restart, f.Req, f.Wrap = 0, bSecure, bSecure, true, true, false
 				f.Info = r.Intn(12) == 0
 			}
 		}
@@ -170,18 +182,31 @@ func gen(r *rand.Rand, index int) *Cfg {
 		if !f.Info && r.Intn(25) == 0 {
 			f.Fail = true
 		}
-		c.Feats = append(c.Feats, f)
+		if !f.Info && !f.Req && !f.Restart && !f.Fail && r.Intn(5) == 0 {
+			f.EarlyReady = true
+		}
+		feats = append(feats, f)
 	}
-	if c.Role == "receiver" {
+	if receiver {
 		// without a feature that can report Ready a receiver can only finish through
 		// an all-voluntary list: make sure most receiver cases have one
 		if nBind == 0 && r.Intn(5) != 0 {
-			i := r.Intn(n)
-			f := &c.Feats[i]
+			f := &feats[r.Intn(n)]
 			if f.Space != nsStartTLS {
-				f.Info, f.Req, f.BindLike = false, true, true
+				f.Info, f.Req, f.BindLike, f.EarlyReady = false, true, true, false
 			}
 		}
+	}
+	return feats
+}
+
+// genSession draws what differs between the sessions of a group.
+func genSession(r *rand.Rand, role string, ws, tee bool, feats []Feat) *Cfg {
+	c := &Cfg{Role: role, WS: ws, Tee: tee, Feats: feats, Reps: 1}
+	n := len(feats)
+	c.S2S = r.Intn(3) == 0
+	c.Init = []uint8{0, 0, bSecure, bSecure | bAuthn}[r.Intn(4)]
+	if role == "receiver" {
 		for i, m := 0, 1+r.Intn(7); i < m; i++ {
 			s := Sel{Cat: "fresh", Pick: r.Intn(1 << 16), IQ: r.Intn(6) == 0, Children: r.Intn(5) == 0}
 			switch r.Intn(14) {
@@ -231,6 +256,59 @@ func gen(r *rand.Rand, index int) *Cfg {
 	return c
 }
 
+func gen(r *rand.Rand, index int) *Group {
+	g := &Group{Reps: 1}
+	role := "receiver"
+	if index%2 == 0 {
+		role = "initiator"
+		g.Reps = 4
+	}
+	ws := r.Intn(4) == 0
+	tee := r.Intn(4) == 0
+	feats := genFeats(r, role == "receiver")
+	nSess := 1
+	if r.Intn(5) < 2 {
+		nSess = 2 + r.Intn(3)
+		g.Overlap = r.Intn(4) == 0
+		if g.Reps > 2 {
+			g.Reps = 2
+		}
+	}
+	shaped := false
+	if role == "initiator" && r.Intn(8) == 0 {
+		// the tee is re-installed when a feature switches to a connection of its
+		// own: give such cases a real-shaped STARTTLS and a voluntary wrapping
+		// feature that does not set Secure
+		tee, shaped = true, true
+		feats[0] = Feat{Space: nsStartTLS, Local: "starttls", Proh: bSecure, Mask: bSecure, Restart: true, Req: true}
+		feats[1] = Feat{Space: "urn:verif:f1", Local: "f1", Restart: true, Wrap: true, Mask: []uint8{0, bAuthn}[r.Intn(2)]}
+		for i := 2; i < len(feats); i++ {
+			if feats[i].Space == nsStartTLS {
+				feats[i].Space, feats[i].Local = fmt.Sprintf("urn:verif:f%d", i), fmt.Sprintf("f%d", i)
+			}
+		}
+	}
+	for i := 0; i < nSess; i++ {
+		c := genSession(r, role, ws, tee, feats)
+		if shaped {
+			c.Init = 0
+			// the first list advertises both, so the voluntary wrapping feature is
+			// taken before STARTTLS
+			has := map[int]bool{}
+			for _, it := range c.Ads[0] {
+				has[it.Feat] = true
+			}
+			for _, j := range []int{0, 1} {
+				if !has[j] {
+					c.Ads[0] = append(c.Ads[0], AdItem{Feat: j})
+				}
+			}
+		}
+		g.Sessions = append(g.Sessions, c)
+	}
+	return g
+}
+
 // ---------------------------------------------------------------------------
 // one execution: model + monitor
 
@@ -272,6 +350,9 @@ type exec struct {
 	readyNoRestart             bool
 	refusedLegit               bool
 	lastSelLegit               *Feat
+	sessIdx                    int   // position in the group (0 = first user of the Negotiator)
+	expectForced               *Feat // rule 2: the forced STARTTLS attempt that has to come next
+	teeReinstalled             bool  // a wrapping feature was negotiated with the tee on
 	ranAway                    bool
 	legitRan                   bool
 }
@@ -381,6 +462,14 @@ func (e *exec) onNegotiate(f *Feat, s *xmpp.Session, data any) (xmpp.SessionStat
 	a, inLast := e.last[f.Space]
 	forced := role == "initiator" && f.Space == nsStartTLS && !(inLast && a.eligAtAd)
 
+	// rule 2 (other direction): the unconditional STARTTLS attempt on the first
+	// list comes before anything else
+	if x := e.expectForced; x != nil {
+		e.expectForced = nil
+		if x != f {
+			e.violate(2, "forced-starttls-missing", "Negotiate(%s) ran, but %s is configured, negotiable and eligible, the session is not secure and the first features list of the session did not advertise it: the unconditional STARTTLS attempt had to come first (session %d of its Negotiator)", f.Local, x.Local, e.sessIdx+1)
+		}
+	}
 	// rule 8 (second half): nothing runs after a selection that had to be refused
 	if e.mustFail != "" {
 		e.violate(8, "ran-"+e.mustFail, "Negotiate(%s) ran although the peer's selection was %s", f.Local, e.mustFail)
@@ -477,9 +566,46 @@ func (e *exec) onNegotiate(f *Feat, s *xmpp.Session, data any) (xmpp.SessionStat
 		mask |= bReady
 		e.c.Count("bindlike_ready", 1)
 	}
+	if f.EarlyReady && !forced {
+		// (the forced STARTTLS attempt ends the list like a mandatory feature, so
+		// nothing could follow it)
+		// counted at the level of the library's cache (eligible when advertised),
+		// whatever the eligibility right now: later features may change it
+		mand, volRestart := 0, 0
+		for _, b := range e.last {
+			g := b.f
+			if g == f || g.Info || !b.eligAtAd || e.negotiated[g.Space] {
+				continue
+			}
+			if g.Req {
+				mand++
+			} else if g.Restart {
+				volRestart++
+			}
+		}
+		if mand <= 1 && volRestart == 0 {
+			mask |= bReady
+			e.c.Count("early_ready", 1)
+			if mand == 1 {
+				e.c.Count("early_ready_with_mandatory_pending_"+role, 1)
+			}
+		}
+	}
 	var rw io.ReadWriter
 	if f.Restart {
 		rw = s.Conn()
+		if f.Wrap {
+			// a connection of the feature's own (not a net.Conn, not the tee)
+			rw = struct {
+				io.Reader
+				io.Writer
+			}{s.Conn(), s.Conn()}
+			e.c.Count("wrapping_restarts", 1)
+			if e.cfg.Tee {
+				e.teeReinstalled = true
+				e.c.Count("tee_reinstalls", 1)
+			}
+		}
 		e.restartPending = true
 		e.peerHdrSince = false
 	}
@@ -490,16 +616,30 @@ func (e *exec) onNegotiate(f *Feat, s *xmpp.Session, data any) (xmpp.SessionStat
 	return xmpp.SessionState(mask), rw, nil
 }
 
-func (e *exec) features() []xmpp.StreamFeature {
+type execKey struct{}
+
+// from finds the execution a callback belongs to: the StreamFeature values are
+// shared by all sessions of a group, the context is per session.
+func from(ctx context.Context) *exec {
+	e, _ := ctx.Value(execKey{}).(*exec)
+	if e == nil {
+		panic("c01: callback invoked with a context that does not descend from the constructor's")
+	}
+	return e
+}
+
+// buildFeatures makes the instrumented StreamFeature values for feats.  They
+// keep no state of their own.
+func buildFeatures(feats []Feat) []xmpp.StreamFeature {
 	var out []xmpp.StreamFeature
-	for i := range e.cfg.Feats {
-		f := &e.cfg.Feats[i]
+	for i := range feats {
+		f := &feats[i]
 		sf := xmpp.StreamFeature{
 			Name:       xml.Name{Space: f.Space, Local: f.Local},
 			Necessary:  xmpp.SessionState(f.Nec),
 			Prohibited: xmpp.SessionState(f.Proh),
 			List: func(ctx context.Context, w xmlstream.TokenWriter, start xml.StartElement) (bool, error) {
-				e.onList(f)
+				from(ctx).onList(f)
 				if err := w.EncodeToken(start); err != nil {
 					return f.Req, err
 				}
@@ -515,7 +655,7 @@ func (e *exec) features() []xmpp.StreamFeature {
 				return f.Req, w.EncodeToken(start.End())
 			},
 			Parse: func(ctx context.Context, d *xml.Decoder, start *xml.StartElement) (bool, any, error) {
-				e.onParse(f)
+				from(ctx).onParse(f)
 				if err := d.Skip(); err != nil {
 					return f.Req, nil, err
 				}
@@ -524,7 +664,7 @@ func (e *exec) features() []xmpp.StreamFeature {
 		}
 		if !f.Info {
 			sf.Negotiate = func(ctx context.Context, s *xmpp.Session, data any) (xmpp.SessionState, io.ReadWriter, error) {
-				return e.onNegotiate(f, s, data)
+				return from(ctx).onNegotiate(f, s, data)
 			}
 		}
 		out = append(out, sf)
@@ -606,7 +746,17 @@ func (e *exec) onWrite(chunk []byte) {
 	}
 }
 
+// forcedDone: the expected unconditional STARTTLS attempt must have happened by
+// the time the library does anything else on the wire or returns.
+func (e *exec) forcedDone(where string) {
+	if x := e.expectForced; x != nil {
+		e.expectForced = nil
+		e.violate(2, "forced-starttls-missing", "%s: %s is configured, negotiable and eligible, the session is not secure and the first features list of the session did not advertise it, but no STARTTLS attempt was made (session %d of its Negotiator)", where, x.Local, e.sessIdx+1)
+	}
+}
+
 func (e *exec) onHeaderOut() {
+	e.forcedDone("the library wrote a stream header")
 	e.sample("header-out")
 	e.nHdrOut++
 	e.hdrOutSince = true
@@ -726,6 +876,7 @@ func elemText(space, local string, req, children bool) string {
 // initiatorScript answers every read of the library with the next
 // advertisement, preceded by a header iff the library has just written one.
 func (e *exec) initiatorScript(written []byte) ([]byte, bool) {
+	e.forcedDone("the library went on reading")
 	if e.peerDone {
 		return nil, true
 	}
@@ -785,6 +936,32 @@ func (e *exec) initiatorScript(written []byte) ([]byte, bool) {
 	}
 	if hasVol && hasMand {
 		e.c.Count("r4_lists_with_voluntary_and_mandatory", 1)
+	}
+	// rule 2: is the unconditional STARTTLS attempt due / possible on this list?
+	// (the library takes the first negotiable feature in the STARTTLS namespace)
+	for i := range e.cfg.Feats {
+		f := &e.cfg.Feats[i]
+		if f.Space != nsStartTLS || f.Info {
+			continue
+		}
+		if _, adv := e.last[f.Space]; !adv && st&bSecure == 0 && elig(f, st) && !e.negotiated[f.Space] {
+			if e.nLists == 1 {
+				e.expectForced = f
+				e.c.Count("r2_forced_starttls_expected", 1)
+				if e.sessIdx > 0 {
+					e.c.Count("r2_forced_starttls_expected_on_reused_negotiator", 1)
+				}
+				if e.cfg.Tee {
+					e.c.Count("r2_forced_starttls_expected_with_tee", 1)
+				}
+			} else {
+				e.c.Count("r2_later_list_without_starttls", 1)
+				if e.teeReinstalled {
+					e.c.Count("r2_later_list_without_starttls_after_tee_reinstall", 1)
+				}
+			}
+		}
+		break
 	}
 	if e.cfg.WS {
 		sb.WriteString("</features>")
@@ -942,8 +1119,9 @@ var (
 	jServer2 = jid.MustParse("example.org")
 )
 
-func runOnce(c *core.Case, cfg *Cfg) *exec {
-	e := &exec{c: c, cfg: cfg, streamAds: map[string]bool{}, last: map[string]adEnt{}, negotiated: map[string]bool{}}
+// runSession runs one session of a group with the group's shared Negotiator.
+func runSession(c *core.Case, cfg *Cfg, neg xmpp.Negotiator, idx int, overlap bool) *exec {
+	e := &exec{c: c, cfg: cfg, sessIdx: idx, streamAds: map[string]bool{}, last: map[string]adEnt{}, negotiated: map[string]bool{}}
 	e.init = cfg.Init
 	if cfg.S2S {
 		e.init |= uint8(xmpp.S2S)
@@ -962,20 +1140,16 @@ func runOnce(c *core.Case, cfg *Cfg) *exec {
 		w := e.conn.Written()
 		e.onWrite(w[len(w)-n:])
 	})
-	feats := e.features()
-	cf := func(s *xmpp.Session, _ *xmpp.StreamConfig) xmpp.StreamConfig {
-		if s != nil {
-			e.sess = s
-		}
-		return xmpp.StreamConfig{Features: feats}
-	}
-	var neg xmpp.Negotiator
 	if cfg.WS {
-		neg = websocket.Negotiator(cf)
 		c.Count("runs_websocket", 1)
 	} else {
-		neg = xmpp.NewNegotiator(cf)
 		c.Count("runs_tcp", 1)
+	}
+	if cfg.Tee {
+		c.Count("runs_with_tee", 1)
+	}
+	if idx > 0 {
+		c.Count("runs_on_reused_negotiator", 1)
 	}
 	if cfg.S2S {
 		c.Count("runs_s2s", 1)
@@ -991,7 +1165,7 @@ func runOnce(c *core.Case, cfg *Cfg) *exec {
 	}
 	var s *xmpp.Session
 	var err error
-	ctx := context.Background()
+	ctx := context.WithValue(context.Background(), execKey{}, e)
 	aborted := false
 	panicked := e.guard(func() {
 		defer func() {
@@ -1029,6 +1203,9 @@ func runOnce(c *core.Case, cfg *Cfg) *exec {
 	if s != nil {
 		e.sess = s
 	}
+	if !panicked {
+		e.forcedDone("the constructor returned")
+	}
 	final := e.sample("constructor-return")
 	e.logf("constructor returned err=%v state=%s", err, stateStr(final))
 
@@ -1037,6 +1214,12 @@ func runOnce(c *core.Case, cfg *Cfg) *exec {
 		c.Count("established_"+cfg.Role, 1)
 		if cfg.WS {
 			c.Count("established_websocket", 1)
+		}
+		if cfg.Tee {
+			c.Count("established_with_tee", 1)
+		}
+		if idx > 0 {
+			c.Count("established_on_reused_negotiator", 1)
 		}
 		if e.restarts > 0 {
 			c.Count("established_after_restart", 1)
@@ -1081,27 +1264,80 @@ func runOnce(c *core.Case, cfg *Cfg) *exec {
 	if ng > 4 {
 		ng = 4
 	}
-	c.Sig("%s ws=%v s2s=%v init=%s feats=%d lists=%d negs=%d restarts=%d forced=%v refuse=%s %s",
-		cfg.Role, cfg.WS, cfg.S2S, stateStr(cfg.Init), len(cfg.Feats), lists, ng, rs, e.forced > 0, e.mustFail, outcome)
+	c.Sig("%s ws=%v s2s=%v tee=%v reused=%v overlap=%v init=%s feats=%d lists=%d negs=%d restarts=%d forced=%v refuse=%s %s",
+		cfg.Role, cfg.WS, cfg.S2S, cfg.Tee, idx > 0, overlap, stateStr(cfg.Init), len(cfg.Feats), lists, ng, rs, e.forced > 0, e.mustFail, outcome)
 	return e
 }
 
 func run(c *core.Case) {
-	cfg := gen(c.Rand, c.Index)
-	runCfg(c, cfg)
+	runGroup(c, gen(c.Rand, c.Index))
 }
 
+// runCfg runs a single session with a Negotiator of its own.
 func runCfg(c *core.Case, cfg *Cfg) {
-	c.Sample(cfg)
-	seqs := map[string]bool{}
-	for i := 0; i < cfg.Reps; i++ {
-		// each repetition gets its own copy: the receiver script mutates SkipHeader
-		cp := *cfg
-		e := runOnce(c, &cp)
-		seqs[strings.Join(e.seq, " ")] = true
+	runGroup(c, &Group{Sessions: []*Cfg{cfg}, Reps: cfg.Reps})
+}
+
+// runGroup builds ONE []StreamFeature slice and ONE Negotiator value per
+// repetition and runs all sessions of the group with them.
+func runGroup(c *core.Case, g *Group) {
+	c.Sample(g)
+	first := g.Sessions[0]
+	seqs := make([]map[string]bool, len(g.Sessions))
+	for i := range seqs {
+		seqs[i] = map[string]bool{}
 	}
-	if len(seqs) > 1 {
-		c.Count("map_order_divergent_cases", 1)
+	if len(g.Sessions) > 1 {
+		c.Count("reuse_groups", 1)
+		if g.Overlap {
+			c.Count("reuse_groups_overlapping", 1)
+		} else {
+			c.Count("reuse_groups_sequential", 1)
+		}
+	}
+	for rep := 0; rep < g.Reps; rep++ {
+		feats := buildFeatures(first.Feats)
+		sc := xmpp.StreamConfig{Features: feats}
+		if first.Tee {
+			sc.TeeIn, sc.TeeOut = io.Discard, io.Discard
+		}
+		cf := func(*xmpp.Session, *xmpp.StreamConfig) xmpp.StreamConfig { return sc }
+		var neg xmpp.Negotiator
+		if first.WS {
+			neg = websocket.Negotiator(cf)
+		} else {
+			neg = xmpp.NewNegotiator(cf)
+		}
+		res := make([]*exec, len(g.Sessions))
+		one := func(i int) {
+			// each execution gets its own copy: the receiver script mutates SkipHeader
+			cp := *g.Sessions[i]
+			res[i] = runSession(c, &cp, neg, i, g.Overlap)
+		}
+		if g.Overlap {
+			var wg sync.WaitGroup
+			for i := range g.Sessions {
+				wg.Add(1)
+				go func(i int) {
+					defer wg.Done()
+					one(i)
+				}(i)
+			}
+			wg.Wait()
+		} else {
+			for i := range g.Sessions {
+				one(i)
+			}
+		}
+		for i, e := range res {
+			seqs[i][strings.Join(e.seq, " ")] = true
+		}
+	}
+	for _, m := range seqs {
+		if len(m) > 1 {
+			c.Count("map_order_divergent_cases", 1)
+			break
+		}
 	}
 }
 
@@ -1138,6 +1374,16 @@ func Prop() *core.Prop {
 			"r8_refusals_observed", "map_order_divergent_cases", "iq_wrapped_selections",
 			"established_initiator", "established_receiver", "established_websocket", "established_after_restart",
 			"relist_on_same_stream", "bindlike_ready",
+			// shared Negotiator / StreamFeature values across sessions
+			"reuse_groups_sequential", "reuse_groups_overlapping", "runs_on_reused_negotiator",
+			"established_on_reused_negotiator", "r2_forced_starttls_expected",
+			"r2_forced_starttls_expected_on_reused_negotiator",
+			// voluntary features whose mask contains Ready, next to a mandatory one
+			"early_ready", "early_ready_with_mandatory_pending_initiator", "early_ready_with_mandatory_pending_receiver",
+			// tee + connection-replacing feature + later lists without starttls
+			"runs_with_tee", "established_with_tee", "wrapping_restarts", "tee_reinstalls",
+			"r2_forced_starttls_expected_with_tee", "r2_later_list_without_starttls",
+			"r2_later_list_without_starttls_after_tee_reinstall",
 		},
 		Witnesses: witnesses(),
 	}
